@@ -1,6 +1,7 @@
 import Proofs.Lemmas.SSZCanonical
 import Zrnt.Gen.SszFacts
 import Proofs.Lemmas.SSZSchemaLegal
+import Proofs.Lemmas.SSZPolyNF
 /-!
 # C04 — SSZ encoding round-trips, agrees with declared lengths, and malformed input is refused
 
@@ -126,6 +127,13 @@ theorem ssz_methods_agree : ∀ T ∈ types, checkType owners views T = none := 
   have := List.all_eq_true.mp all_rows_ok T h
   simpa [Option.isNone_iff_eq_none] using this
 
+open Zrnt.Schema Zrnt.Schema.Facts in
+/-- What "limits agree" in `ssz_methods_agree` means: two division-free length expressions that `checkType`
+accepts as the same (`sameLen`) have the same value under **every** configuration, not only at the presets. -/
+theorem limits_agree_for_all_configs (a b : LExpr) (ha : noDiv a = true) (hb : noDiv b = true)
+    (h : sameLen a b = true) (c : Config) : a.eval c = b.eval c :=
+  sameLen_sound a b ha hb h c
+
 open Zrnt.Schema Zrnt.Schema.Facts Zrnt.Gen.SszFacts in
 /-- **The Go SSZ types are exactly the schema's entries**: every Go type with the SSZ method set has a
 specification entry of its name (specification containers plus the list/alias helpers listed in
@@ -149,6 +157,9 @@ def exTy : Ty := .struct [("a", .uint 2), ("b", .list (.uint 1) 4), ("c", .bitli
 def exVal : Val := .seq [.num 258, .seq [.num 7, .num 9], .bits [true, false, true]]
 
 example : ∃ c : Zrnt.Schema.Config, (∀ k, 0 < c k) ∧ 4 ≤ c n!"SYNC_COMMITTEE_SIZE" := ⟨fun _ => 4, fun _ => Nat.succ_pos 3, Nat.le_refl 4⟩
+open Zrnt.Schema Zrnt.Schema.Facts in
+example : sameLen (c n!"MAX_ATTESTATIONS" * c n!"SLOTS_PER_EPOCH") (c n!"SLOTS_PER_EPOCH" * (c n!"MAX_ATTESTATIONS" + 0)) = true ∧
+    sameLen (c n!"MAX_ATTESTATIONS") (c n!"MAX_DEPOSITS") = false := by decide +kernel
 example : exTy.Legal := by simp [exTy, Ty.struct, Fields.ofList, Ty.Legal, Fields.Legal, Fields.length]
 example : WF exTy exVal := by simp [exTy, exVal, Ty.struct, Fields.ofList, WF, WFFields]
 example : encode exTy exVal = [2, 1, 10, 0, 0, 0, 12, 0, 0, 0, 7, 9, 13] := by decide
